@@ -233,6 +233,26 @@ def run(facts, R):
                 R.check(rv["variant"] == "Err", "done-gate", nh.path, "pulling a finished stream is an error",
                         "a `next` on a stream whose session is already done yields %s: a second end marker / a clean end after a failure" % render(ns.rvalue(rv))[:80], st.get("span"),
                         "Err(\"stream already finished\")")
+    if n_done_err == 0 and getattr(nh, "changed", False):
+        # the outcome may travel in a private enum instead of a Result: stated on paths - from the `done == true` edge no chunk
+        # response is reachable and every way out crosses the error reply
+        heads_ = []
+        for x in sorted(nh.live_blocks()):
+            if any(f["expr"][0] == "field" and f["expr"][2] == "done" and f["val"] is True and not f.get("derived") and not f.get("merged") for f in facts_at(nh, ns, facts, x)):
+                heads_.append(x)
+        entry_ = [(x, 0) for x in heads_ if any(p_ not in heads_ for p_ in nh.preds().get(x, []))]
+        crs_ = [i for i, t in nh.calls() if callee_matches(t["callee"], VS + "chunk_response")]
+        errs_ = [term_pt(nh, i) for i, t in nh.calls() if callee_matches(t["callee"], VS + "error_like")]
+        from analysis.guards import infeasible as _inf
+        reach_ = set()
+        for x, _ in entry_:
+            reach_ |= nh.reachable((x,))
+        bad_cr = [i for i in crs_ if i in reach_ and any(not _inf(a, facts.adts) and any(t_.endswith(".done is True") for t_ in texts(a)) for a in path_facts(nh, ns, facts, i))]
+        w_ = must_cross(nh, entry_, return_points(nh), errs_, after_start=False)
+        okp = bool(entry_) and not bad_cr and w_ is None
+        R.check(okp, "done-gate", nh.path, "pulling a finished stream is an error",
+                "on the `done == true` edge a chunk response is reachable, or a return is reachable without the error reply", nh.span, "done edge -> error_like only", path=w_)
+        n_done_err = 1 if okp else 0
     R.floor("done-gate", n_done_err, 1, "Err values on the done edge of the next handler")
     dstores = [w for w in field_writes(facts, VS + "Session", "done") if w["body"] is nh and w["kind"] == "store"]
     R.check(len(dstores) == 1 and const_val(ns.rvalue(dstores[0]["rv"])) == 1, "done-gate", nh.path, "done := true", "stores to done: %d" % len(dstores), nh.span)
@@ -242,10 +262,13 @@ def run(facts, R):
     seen_rows = set()
     for i, t in removes:
         # a remove shared by the two rows (`if spent { remove }`) is entered through several edges: judge each way in
-        alts = [texts(a) for a in path_facts(nh, ns, facts, i)]
+        from analysis.guards import infeasible as _infeasible
+        alts = [texts(a) for a in path_facts(nh, ns, facts, i) if not _infeasible(a, facts.adts)]
         ok = bool(alts)
         for fs in alts:
-            is_err = any(x.endswith("is Err") for x in fs)
+            # (a `next` for a stream that is already done is answered like a failed pull, and may release the - already
+            # released - session again)
+            is_err = any(x.endswith("is Err") for x in fs) or any(x.endswith(".done is True") for x in fs)
             is_last = any(".1" in x and x.endswith("is True") for x in fs)
             ok = ok and (is_err or is_last)
             seen_rows |= ({"err"} if is_err else set()) | ({"last"} if is_last else set())
@@ -257,7 +280,28 @@ def run(facts, R):
     crs = [(i, t) for i, t in nh.calls() if callee_matches(t["callee"], VS + "chunk_response")]
     for i, t in crs:
         a = [render_n(ns.op(x)) for x in t["args"]]
-        R.check(a[1].endswith(".0.0") and a[2].endswith(".0.1") and a[1][:-2] == a[2][:-2], "done-gate", nh.path, "response carries the pulled (chunk, last)", "chunk_response args %s" % [x[-40:] for x in a], t.get("span"))
+        okc = a[1].endswith(".0.0") and a[2].endswith(".0.1") and a[1][:-2] == a[2][:-2]
+        if not okc and getattr(nh, "changed", False):
+            # the pair may have been taken apart and carried in a status value (`More(chunk)` / `Final(chunk)`): the chunk is still
+            # the pulled chunk, and a literal `last` is the value the path knows the pulled flag to have
+            from analysis.sym import split_eval
+            from analysis.guards import infeasible as _inf2
+            okc = True
+            alts_ = split_eval(ns, i, len(nh.blocks[i]["stmts"]), lambda v_: (v_.op(t["args"][1]), v_.op(t["args"][2]))) or []
+            okc = bool(alts_)
+            for _, (cv_, lv_) in alts_:
+                ct_ = render_n(cv_)
+                good_chunk = ct_.endswith(".0.0") and "Session::pull(" in ct_
+                lt_ = render_n(lv_)
+                if lt_.endswith(".0.1") and lt_[:-2] == ct_[:-2]:
+                    good_last = True
+                else:
+                    c_ = const_val(lv_)
+                    rows_ = [texts(pf_) for pf_ in path_facts(nh, ns, facts, i) if not _inf2(pf_, facts.adts)]
+                    want_ = " is True" if c_ == 1 else " is False"
+                    good_last = c_ in (0, 1) and bool(rows_) and all(any(x_.endswith(".0.1" + want_) and "Session::pull(" in x_ for x_ in r_) for r_ in rows_)
+                okc = okc and good_chunk and good_last
+        R.check(okc, "done-gate", nh.path, "response carries the pulled (chunk, last)", "chunk_response args %s" % [x[-40:] for x in a], t.get("span"))
     # unknown id / finished -> error
     errs = [(i, t) for i, t in nh.calls() if callee_matches(t["callee"], VS + "error_like")]
     R.floor("done-gate", len(errs), 3, "error rows in next handler")
@@ -309,7 +353,15 @@ def run(facts, R):
     R.check(len(crm) == 1, "done-gate", ch.path, "cancel removes the session", "CancelHandler has %d table.remove calls" % len(crm), ch.span)
     for i, t in crm:
         key = render_n(chs.op(t["args"][1]))
-        R.check(key.endswith(".stream_id") and "from_slice(arg2.body)" in key, "done-gate", ch.path, "cancel releases the stream it names", "remove(%s)" % key, t.get("span"), key[-60:])
+        keys = [key]
+        if getattr(ch, "changed", False):
+            # the id may travel through an Option / local (`parse.ok().map(|c| c.stream_id)` then `if let Some(id)`): by reaching definitions
+            from analysis.sym import split_eval
+            alts_ = split_eval(chs, i, len(ch.blocks[i]["stmts"]), lambda v_: v_.op(t["args"][1]))
+            if alts_:
+                keys = [render_n(v_) for _, v_ in alts_]
+        R.check(all(k_.rstrip(")").endswith(".stream_id") and "from_slice(arg2.body)" in k_ for k_ in keys), "done-gate", ch.path, "cancel releases the stream it names",
+                "remove(%s)" % keys, t.get("span"), key[-60:])
         okd = []
         for x in sorted(ch.live_blocks()):
             for f in facts_at(ch, chs, facts, x):
